@@ -90,6 +90,8 @@ GenerousRecipeNeverRefused == (pc = "err" /\ errKind = "failrate") => ~(CodeCoun
 \* C02: a rejected candidate is discarded entirely (everything is redrawn)
 RejectDiscardsCandidate == [][pc = "preflight" /\ pc' = "drawing" => cand' = <<>>]_vars
 RecipeNeverWritten == [][r' = r /\ mt' = mt]_vars      \* C15: value receiver, fields untouched
+\* C09: after a failing read nothing more happens - in particular nothing is returned
+PanicIsTerminal == [][pc = "panic" => pc' = "panic"]_vars
 Terminates == <>(pc \in {"done", "err", "panic"})
 
 \* C02 as a counting statement over the complete cell of index tuples of ONE attempt: every valid
